@@ -13,7 +13,7 @@ observer("ICircuitOperation.listing", params=dict(self=OP), returns=SEQ(OP), rea
 # decomposed_operations: returns the listing; its only side effect is the hand-down of relation links (assumed interface
 # contract; the composite implementation is checked by the bounded stand-ins of C01/C02)
 contract("ICircuitOperation.decomposed_operations", params=dict(self=OP), returns=SEQ(OP), verify=False, modifies=REL_FIELDS,
-         ensures=["same_seq(result, self.listing)"])
+         ensures=["seq_is(result, self.listing)"])
 observer("IAcquisitionComponent.acquisition_identifier", params=dict(self=REF("IAcquisitionComponent")), returns=REF("AcquisitionIdentifier"),
          reads=[], ensures=["not typeis(self, DispersiveMeasure) or result is self._acquisition_identifier"], props=P)
 refines("DispersiveMeasure.acquisition_identifier", "IAcquisitionComponent.acquisition_identifier", props=P)
@@ -58,7 +58,7 @@ contract("AcquisitionRegistry.get_registry_at",
              f"result.circuit_level_index == count_acq({OPS}, h) and "
              f"result.qubit_level_index == count_acq_q({OPS}, h, key.qubit_index))",
          ],
-         loops={0: [f"same_seq(_xs, {OPS})",
+         loops={0: [f"seq_is(_xs, {OPS})",
                     "circuit_level_acquisition_index == count_acq(_xs, _i)",
                     "qubit_level_acquisition_index == count_acq_q(_xs, _i, key.qubit_index)",
                     f"forall(_seen, lambda o: not ({MATCH}))"]})
